@@ -7,15 +7,6 @@ func init() {
 	vsRegister("C01.trie_traverse_shapes", vhC01TrieTraverseShapes)
 }
 
-// vhNibbles: n symbolic nibbles (values 0..15: what Nibbles.Deserialize / unpackNibblePair produce).
-func vhNibbles(tag string, n int) []byte {
-	p := vsBytesN(tag, n)
-	for i := 0; i < n; i++ {
-		p[i] &= 15
-	}
-	return p
-}
-
 func vhPath(tag string, max int) []byte { return vhNibbles(tag, vsChoose(tag+"-len", max+1)) }
 
 // A peer-supplied RLP trie node (any bytes 0..L) is decoded by the real decoder (including
